@@ -26,7 +26,7 @@ def gen_config(rng):
         cfg["streamers"] = [gen_streamer(rng, XDMA_OPTS) for _ in range(2)]
     elif kind == "phs":
         cfg["streamers"] = [gen_streamer(rng, REG_OPTS) for _ in range(rng.randint(1, 4))]
-        cfg["switches"] = rng.randint(0, 6)
+        cfg["switches"] = rng.choice([rng.randint(0, 6), rng.randint(0, 6), rng.randint(7, 24)])
     return cfg
 
 
